@@ -121,10 +121,11 @@ def _gen_type(p, rng, depth, elem_pool=None):
             last = i == n - 1
             while m.kind in ("uarray", "rest") and not last:
                 m = gen_type(p, rng, depth - 1, elems)
-            if unnamed_budget and rng.random() < 0.3 and isinstance(m.lib, type):
+            if unnamed_budget and rng.random() < 0.3:
                 unnamed_budget -= 1
                 members.append(m.lib)
-                descs.append((None, m.desc))
+                # an unnamed class member has name None, an unnamed instance (n_bytes) has name "": both are dropped on decode
+                descs.append((None if isinstance(m.lib, type) else "", m.desc))
                 labels.append(m.label)
             else:
                 nm = f"m{i}"
@@ -321,7 +322,7 @@ def gen_value(desc, rng, small=False):
 def struct_as_dict(desc, seq):
     """positional struct value -> dict form (only possible when unnamed members <= 1: key None)"""
     names = [n for n, d in desc[1]]
-    if names.count(None) > 1:
+    if names.count(None) > 1 or "" in names:
         return None
     return {n: v for n, v in zip(names, seq)}
 
